@@ -11,7 +11,7 @@ from numbers import Integral
 import mido
 from mido import Message
 
-from .. import gen
+from .. import abuse, gen
 from ..ref import midi1
 
 ID = 'C01'
@@ -304,6 +304,32 @@ def history(ctx, t, steps, seed):
         if rng.random() < 0.3:
             tm = rng.choice(gen.TIMES)
             m.time = tm
+        r = rng.random()
+        if r < 0.15:
+            # edits that are rejected, and everyday handling (str, dict, copies, pickling, a frozen twin that
+            # is hashed): none of it may leave a trace in the message
+            abuse.failed_edits(m)
+            enc1 += '+failed-edits'
+        elif r < 0.3:
+            abuse.handle(m)
+            enc1 += '+handled'
+        elif r < 0.36:
+            # the message goes on as its own pickled / deep-copied / thawed-frozen self
+            how = rng.choice(('pickle', 'deepcopy', 'freeze-hash-thaw', 'copy'))
+            import copy as _copy
+            import pickle as _pickle
+            import mido.frozen as _fz
+            if how == 'pickle':
+                m = _pickle.loads(_pickle.dumps(m))
+            elif how == 'deepcopy':
+                m = _copy.deepcopy(m)
+            elif how == 'copy':
+                m = m.copy()
+            else:
+                f = _fz.freeze_message(m)
+                hash(f)
+                m = _fz.thaw_message(f)
+            enc1 += '+' + how
         ops.append(enc1)
         ref = midi1.encode(t, a)
         enc2 = rng.choice(('bytes', 'bin', 'hex'))
@@ -317,7 +343,8 @@ def history(ctx, t, steps, seed):
                   lambda: {'step': i, 'got': got[:20], 'ref': ref[:20]})
         ctx.check('history len', len(m) == len(ref), 'stale-len', case, [len(m), len(ref)])
         d = Message.from_bytes(m.bytes(), time=m.time)
-        ctx.check('history decode==m', d == m, 'history-decode', case, repr(d)[:200])
+        ctx.check('history decode==m', d == m and vars(d) == vars(m) and set(vars(m)) == set(a) | {'type', 'time'}, 'history-decode', case,
+                  lambda: {'step': i, 'ops': ops[-3:], 'decoded': repr(vars(d))[:200], 'message': repr(vars(m))[:200]})
         if rng.random() < 0.3:
             c = m.copy()
             ctx.check('history copy enc', c.bytes() == ref, 'copy-encoding', case, c.bytes()[:20])
@@ -329,7 +356,11 @@ def phase_e(ctx):
     for j in range(n):
         for t in midi1.TYPES:
             seed = f'{ctx.seed}:{ctx.shard}:{j}:{t}'
-            history(ctx, t, 8, seed)
+            try:
+                history(ctx, t, 8, seed)
+            except Exception as exc:
+                ctx.fail('history enc==ref', f'history-raised:{type(exc).__name__}', {'kind': 'history', 'type': t, 'steps': 8, 'seed': seed},
+                         f'{type(exc).__name__}: {exc}')
             ctx.nontrivial(('hist', seed))
             k += 1
     ctx.count('cases', k)
@@ -419,7 +450,10 @@ def replay(ctx, case):
         check_containers(ctx, case['type'], a)
         return
     elif k == 'history':
-        history(ctx, case['type'], case['steps'], case['seed'])
+        try:
+            history(ctx, case['type'], case['steps'], case['seed'])
+        except Exception as exc:
+            ctx.fail('history enc==ref', f'history-raised:{type(exc).__name__}', case, f'{type(exc).__name__}: {exc}')
         return
     elif k == 'cold':
         from .. import coldstart
